@@ -68,13 +68,16 @@ func (f *futureProcess[M]) OnlyResult() (m M) {
 }
 
 func (f *futureProcess[M]) AwaitForward(ref *prc.ProcessId, asyncFunc func() M) {
-	f.Forward(ref)
 	go func() {
 		if reason := recover(); reason != nil {
 			f.rc.GetProcess(ref).DeliveryUserMessage(ref, f.ref, nil, reason)
 		}
 		m := asyncFunc()
 		f.rc.GetProcess(ref).DeliveryUserMessage(ref, f.ref, nil, m)
+		// the result has been handed to the target: the future is complete. Completing it releases its temporary
+		// address (such a future has no timeout that would do so later). The target is not put on the forward list:
+		// it has received the result above and must not be delivered to a second time by the completion
+		f.Close(nil)
 	}()
 }
 
